@@ -504,7 +504,8 @@ def copy_rules(rep: Report, prog: Program, cm: ClassModel) -> None:
                 return isinstance(t, ast.Attribute) and t.attr == '_rules' and not (isinstance(t.value, ast.Name) and t.value.id == selfn)
             rules_store = [a for a in own_nodes(f.node) if isinstance(a, ast.Assign) and _rules_target(a.targets[0])
                            and not (isinstance(a.value, ast.Dict) and not a.value.keys) and not (isinstance(a.value, ast.Call) and callee_last(a.value) in ('dict', 'defaultdict') and not a.value.args)]
-            ok = bool(rules_store) and all(any(isinstance(x, ast.Call) and callee_last(x) == 'copy' for x in ast.walk(a.value)) for a in rules_store)
+            # the stored list may have been given a name first (`copied = [r.copy() for r in ...]; c._rules[lhs] = copied`)
+            ok = bool(rules_store) and all(any(isinstance(x, ast.Call) and callee_last(x) == 'copy' for x in ast.walk(inline_temps(f.node, a.value))) for a in rules_store)
             rep.ob(rule + ' independence', f.fq(), f"{cname}.copy copies every rule", f.loc(), ok,
                    'each rule list is rebuilt from r.copy()' if ok else 'rule objects are shared between the copy and the original')
     rep.floor('C16-D3', n, 5)
